@@ -251,6 +251,23 @@ func run(tier string) int {
 		sort.Strings(keys)
 		for _, k := range keys {
 			f := bestBy[pg.Name][k]
+			// re-execute the candidate before reporting it
+			for i := 0; i < 2; i++ {
+				pp := pg
+				o, err := runSchedule(&pp, f.Schedule, 1<<30)
+				again := false
+				if err == nil {
+					for _, g := range o.Findings {
+						if fmt.Sprintf("C17/%s after=interleaving[%s]", g.Key, pg.Name) == f.Key {
+							again = true
+						}
+					}
+				}
+				if !again {
+					fmt.Fprintf(os.Stderr, "harness error: violation %s did not reproduce on re-execution of schedule %v\n", f.Key, f.Schedule)
+					return 2
+				}
+			}
 			if os.Getenv("VERIF_KEYS") != "" {
 				fmt.Printf("KEY %s\n        %s | schedule %v (%d preemptions) | %s\n", f.Key, f.Msg, f.Schedule, f.Preemptions, strings.Join(f.Events, " ; "))
 			}
@@ -346,6 +363,19 @@ func run(tier string) int {
 						continue
 					}
 					seenKey[key] = true
+					for i := 0; i < 2; i++ { // re-execute the candidate before reporting it
+						fresh, err := ReplayHistory(&hcfgs[src.Cfg], hist, false)
+						again := false
+						for _, g := range fresh {
+							if g.Key == key {
+								again = true
+							}
+						}
+						if err != nil || !again {
+							fmt.Fprintf(os.Stderr, "harness error: violation %s did not reproduce on re-execution of its history\n", key)
+							return 2
+						}
+					}
 					hs := []string{}
 					for _, l := range hist {
 						hs = append(hs, l.String())
